@@ -72,6 +72,26 @@ PROPS = {
                         "snapshots are taken by the scheduler-side hooks without the lock"],
         "required_probes": ["evicted", "stateless", "interleaved-served"],
     },
+    "C08": {
+        "level": "exploration",
+        "stall_is_violation": True,
+        "stall_s": 8,
+        "budget": {"quick": 100, "thorough": 1200},
+        "runs": {"quick": 2400, "thorough": 300000},
+        "rule": "one run = one of eight sub-worlds (run index mod 8): the real IP NTP/NTS listener, the real SCION listener (service port and end-host port, with and without the DRKey fetcher), the real CSPTP listeners, "
+                "the real NTS-KE server behind real TLS, and the real IP, SCION, CSPTP and NTS-KE clients facing a hostile peer. Inputs: arbitrary bytes up to the receive-buffer size and structure-aware mutations of genuine packets "
+                "(bit flips, boundary bytes and 16-bit words, truncation, appended and self-copied data; NTS extension and cookie TLV lengths 0..5/0xffff, 1 cookie + 7 placeholders; SCION address type/length nibbles, path type, header/payload lengths, "
+                "path meta header, authenticator options of 0..40 bytes, timestamp options holding crafted control messages, SCMP types; CSPTP truncations with consistent length fields; NTS-KE records with lying lengths, "
+                "cookies of 0..2000 bytes, non-IP server names, short port and AEAD records; garbage instead of a TLS handshake). After each burst a well-formed sentinel request on the same socket must be answered "
+                "(listeners) or a clean exchange must still succeed (clients); non-trivial = at least two crafted inputs; distinct = distinct event-log hash",
+        "required_probes": ["sentinel-answered", "mode:ip-listener", "mode:scion-listener", "mode:csptp-listener", "mode:ntske-server", "mode:ip-client", "mode:scion-client", "mode:csptp-client", "mode:ntske-client"],
+        "components": {"real": ["core/server runIPServer, runSCIONServer (NTP, SCMP, forwarder), runCSPTPServerIP, handleKeyExchangeTLS", "core/client IPClient, SCIONClient, CSPTPClientIP", "net/ntske Fetcher, ReadData, cookies",
+                                "net/nts, net/ntp, net/csptp, net/udp (cmsg parsers), net/scion auth.go", "gopacket/slayers decoding"],
+                       "stub": dict(STUBS_COMMON, **{"kernel UDP/TCP": "simnet", "hostile peers": "scripted"}),
+                       "not_run": ["net/scion/quic.go serverConn/clientConn ReadFrom (QUIC transport)", "NTS-KE over QUIC"]},
+        "assumptions": ["a panic in a goroutine the harness started is recovered and attributed to the innermost repository frame; a panic in a goroutine the code started itself kills the worker and is attributed by re-running that seed alone",
+                        "a loop that never returns to the simulator is detected by the wall-clock watchdog (8 s) and reported as stall/<function> only if it reproduces"],
+    },
     "C09": {
         "level": "exploration",
         "stall_is_violation": True,
@@ -259,7 +279,7 @@ NOT_APPLICABLE = {
 
 # Properties that the design claims but whose world is not built yet (kept current).
 NOT_YET = {p: "designed (DESIGN.md section 3) but the simulated world is not built yet; not claimed until its check runs"
-           for p in ["C08"]}
+           for p in []}
 
 PROPS["C01"].update(
     level_text="seeded exploration of multi-round histories of the real synchronization loop with scripted sources (values over the whole int64 range, failures, late answers, sources that never answer) and admissible/inadmissible configurations; per-round invariants: exactly one correction, magnitude bounds from the statement, exact value when every source answered in time, correction no later than the round's timeout; start-up refusal of inadmissible settings. Evidence, not proof.",
@@ -289,6 +309,10 @@ PROPS["C07"].update(
     level_text="seeded exploration as for C06 plus store-wide invariants after every operation (map/heap agreement, back-pointers, heap order, 1..8 distinct exchanges per client, rank never older than the newest exchange, capacity) and the eviction rule (only the heap root, only for a request at least as recent, otherwise stateless). Evidence, not proof; capacity explored at 2..16 in this tier.",
     level_note="'free of data races' is decided through its observable consequence (atomicity under statement-level interleaving), see DESIGN.md section 7",
     technique="deterministic simulation: seeded scheduler with statement-level yields, store invariants and eviction relation on snapshots")
+PROPS["C08"].update(
+    level_text="seeded structure-aware fuzzing of every receive loop inside the simulator (listeners and clients, IP and SCION, NTS, NTS-KE over TLS, CSPTP) with a no-panic / no-stall / sentinel-still-answered oracle. Evidence, not proof.",
+    level_note="QUIC transport not run; sub-world chosen by run index so that every batch visits all eight",
+    technique="deterministic simulation with fault injection: hostile peers and corrupted packets at every receive loop, crash/stall/sentinel oracle")
 PROPS["C09"].update(
     level_text="complete enumeration of the first-byte x length-class x trailer-class space against the running listeners plus seeded sampling of the rest (remaining header bytes, lengths, ports, duplicates); reply count, addressing, reply header and anti-reflection are decided by the simulated network's accounting. Enumeration is exhaustive for the stated sub-space only; everything else is evidence, not proof.",
     level_note="trusts the simulator's causality tracking of replies; listener hangs are detected by the wall-clock watchdog and reported as violations (stall) only if they reproduce",
